@@ -3,8 +3,10 @@
 set -u
 PATCH="$1"; PROPS="$2"
 export GOFLAGS=-mod=mod GOPROXY=off GOSUMDB=off GOTOOLCHAIN=local GOWORK=off
-D=$(mktemp -d /tmp/seedrun.XXXXXX)
-trap 'rm -rf "$D"' EXIT
-rsync -a --exclude .git /repo/ "$D/repo/"
+SLOTS=/tmp/dcpverif-scratch; mkdir -p "$SLOTS"; k=0
+while ! mkdir "$SLOTS/tlock.$k" 2>/dev/null; do k=$(( (k+1) % 32 )); done
+D="$SLOTS/t$k"; rm -rf "$D"; mkdir -p "$D"   # fixed paths: build-cache friendly
+trap 'rm -rf "$D"; rmdir "$SLOTS/tlock.$k"' EXIT
+rsync -a --exclude .git /repo/ "$D/repo/"; case "$D" in /tmp/*) [ -f "$D/repo/go.mod" ] || { echo "scratch copy failed: $D" >&2; exit 9; };; *) echo "refusing to work outside /tmp: [$D]" >&2; exit 9;; esac
 (cd "$D/repo" && git init -q . 2>/dev/null; patch -p1 -s < "$PATCH") || { echo "PATCH-FAILED $PATCH"; exit 3; }
 /verif/bin/dcpverif -prop "$PROPS" -repo "$D/repo" -out /verif -no-evidence 2>&1 | grep -E "^\s+\[(violated|undecided)\]|VIOLATION|KNOWN|obligations|cannot" | sed "s#$D/repo/##g"
